@@ -70,7 +70,7 @@ static child_res run_child(int a, int b, case_fn fn, void *ctx, int timeout_ms) 
             fflush(o);
         }
         fflush(o);
-        _exit(0);
+        VF_EXIT(0);
     }
     int st = 0;
     while(waitpid(pid, &st, 0) < 0 && errno == EINTR) {}
